@@ -31,11 +31,18 @@ def confirm(wt, i, name):
     meta = json.load(open(os.path.join(mut, "meta.json")))
     patch = os.path.join(mut, "patch.diff")
     demo = meta["demo"]
+    # run only the `go test …` part of the agent's command: the demo files are copied here
+    m = re.search(r"go test [^;&()]+", demo["cmd"])
+    demo = dict(demo); demo["cmd"] = m.group(0).strip() if m else demo["cmd"]
     log = {}
-    sh("git checkout -- . ", cwd=wt)
+    sh("git checkout -- . && git clean -fdq -e MUT", cwd=wt)
+    # ui/web.go embeds the git-ignored ui/app/dist (present in /repo, absent in a fresh worktree)
+    os.makedirs(os.path.join(wt, "ui/app/dist"), exist_ok=True)
+    if not os.path.exists(os.path.join(wt, "ui/app/dist/index.html")):
+        open(os.path.join(wt, "ui/app/dist/index.html"), "w").write("<html></html>")
     # demo files: every *_test.go / *.go next to meta.json
     demos = [f for f in os.listdir(mut) if f.endswith(".go")]
-    dst = os.path.join(wt, demo["copy_to"])
+    dst = os.path.join(wt, demo["copy_to"].split()[0])
     def put_demo():
         os.makedirs(dst, exist_ok=True)
         for f in demos: shutil.copy(os.path.join(mut, f), os.path.join(dst, f))
